@@ -963,6 +963,139 @@ pub fn exec_delete(a_store: &mut AnnotationStore, b_store: &mut AnnotationStore,
 }
 
 // ------------------------------------------------------------------------------------------
+// a collection of handles kept from an earlier query and used again after one of its members has
+// been removed from the store (request 8)
+
+/// the distinct outer items (four numbers each) of the rows of a query, sorted
+pub fn collection_of(rows: &Sx) -> Option<Vec<Vec<usize>>> {
+    let mut out: Vec<Vec<usize>> = Vec::new();
+    for r in rows.list() {
+        if matches!(r, Sx::A(_)) {
+            return None; // an error code, not rows
+        }
+        let it: Vec<usize> = r.list().iter().take(4).map(|x| x.int() as usize).collect();
+        if it.len() == 4 {
+            out.push(it);
+        }
+    }
+    out.sort();
+    out.dedup();
+    Some(out)
+}
+
+fn remove_item(store: &mut AnnotationStore, it: &[usize]) {
+    match it[0] {
+        0 => {
+            let _ = store.remove_annotation(AnnotationHandle::new(it[1]));
+        }
+        1 => {
+            let (sh, h) = (AnnotationDataSetHandle::new(it[1]), AnnotationDataHandle::new(it[2]));
+            if store.dataset(sh).map(|st| st.annotationdata(h).is_some()).unwrap_or(false) {
+                let _ = store.remove_data(sh, h, true);
+            }
+        }
+        2 => {
+            let (sh, h) = (AnnotationDataSetHandle::new(it[1]), DataKeyHandle::new(it[2]));
+            if store.dataset(sh).map(|st| st.key(h).is_some()).unwrap_or(false) {
+                let _ = store.remove_key(sh, h, true);
+            }
+        }
+        3 => {
+            let _ = store.remove_resource(TextResourceHandle::new(it[1]));
+        }
+        4 => {
+            let _ = store.remove_dataset(AnnotationDataSetHandle::new(it[1]));
+        }
+        _ => {}
+    }
+}
+
+/// the query q gives a collection (handles only); `victim` is removed from the store by the direct
+/// call; then the collection is used again: Handles::items(), SELECT <type> WHERE <collection>
+/// through the constructor, <all items>.filter_any(<collection>): each time the members that
+/// are still there
+pub fn exec_collection(store: &mut AnnotationStore, q: &Q, victim: &Sx) -> Vec<Sx> {
+    let rows = eval_prog(store, q);
+    let coll = match collection_of(&rows) {
+        Some(c) => c,
+        None => return vec![rows.clone(), rows.clone(), rows],
+    };
+    let victim: Vec<usize> = victim.list().iter().map(|x| x.int() as usize).collect();
+    if victim.len() == 4 && guard(|| remove_item(store, &victim)).is_none() {
+        return vec![l(vec![a(-1)]); 3];
+    }
+    let store: &AnnotationStore = store;
+    let rt = q.rt;
+    let name = leak(vname(q.name));
+    let anns = || -> Annotations { Handles::new(std::borrow::Cow::Owned(coll.iter().map(|x| AnnotationHandle::new(x[1])).collect()), true, store) };
+    let ress = || -> Resources { Handles::new(std::borrow::Cow::Owned(coll.iter().map(|x| TextResourceHandle::new(x[1])).collect()), true, store) };
+    let data = || -> Data { Handles::new(std::borrow::Cow::Owned(coll.iter().map(|x| (AnnotationDataSetHandle::new(x[1]), AnnotationDataHandle::new(x[2]))).collect()), true, store) };
+    let keys = || -> Keys { Handles::new(std::borrow::Cow::Owned(coll.iter().map(|x| (AnnotationDataSetHandle::new(x[1]), DataKeyHandle::new(x[2]))).collect()), true, store) };
+    let items = guard(|| {
+        let rows: Vec<Row> = match rt {
+            0 => anns().items().map(|x| vec![0, x.handle().as_usize(), 0, 0]).collect(),
+            1 => data().items().map(|x| vec![1, x.set().handle().as_usize(), x.handle().as_usize(), 0]).collect(),
+            2 => keys().items().map(|x| vec![2, x.set().handle().as_usize(), x.handle().as_usize(), 0]).collect(),
+            _ => ress().items().map(|x| vec![3, x.handle().as_usize(), 0, 0]).collect(),
+        };
+        rows_sx(rows, false)
+    })
+    .unwrap_or_else(|| l(vec![a(-1)]));
+    let by_query = match guard(|| {
+        let c = match rt {
+            0 => Constraint::Annotations(anns(), SelectionQualifier::Normal, AnnotationDepth::Zero),
+            1 => Constraint::Data(data(), SelectionQualifier::Normal),
+            2 => Constraint::Keys(keys(), SelectionQualifier::Normal),
+            _ => Constraint::Resources(ress(), SelectionQualifier::Normal),
+        };
+        Query::new(QueryType::Select, Some(rtype(rt)), Some(name)).with_constraint(c)
+    }) {
+        Some(query) => {
+            // (the query borrows the store for its own lifetime: run it here)
+            match guard(|| match store.query(query) {
+                Err(_) => l(vec![a(-4)]),
+                Ok(iter) => {
+                    let mut rows = Vec::new();
+                    for r in iter {
+                        let mut row = Row::new();
+                        for it in r.iter() {
+                            item_row(it, &mut row);
+                        }
+                        rows.push(row);
+                    }
+                    rows_sx(rows, false)
+                }
+            }) {
+                Some(x) => x,
+                None => l(vec![a(-1)]),
+            }
+        }
+        None => l(vec![a(-1)]),
+    };
+    let filtered = guard(|| {
+        let rows: Vec<Row> = match rt {
+            0 => store.annotations().filter_any(anns()).map(|x| vec![0, x.handle().as_usize(), 0, 0]).collect(),
+            1 => store
+                .datasets()
+                .flat_map(|st| st.data())
+                .filter_any(data())
+                .map(|x| vec![1, x.set().handle().as_usize(), x.handle().as_usize(), 0])
+                .collect(),
+            2 => store
+                .datasets()
+                .flat_map(|st| st.keys())
+                .filter_any(keys())
+                .map(|x| vec![2, x.set().handle().as_usize(), x.handle().as_usize(), 0])
+                .collect(),
+            _ => store.resources().filter_any(ress()).map(|x| vec![3, x.handle().as_usize(), 0, 0]).collect(),
+        };
+        rows_sx(rows, false)
+    })
+    .unwrap_or_else(|| l(vec![a(-1)]));
+    vec![items, by_query, filtered]
+}
+
+// ------------------------------------------------------------------------------------------
 // generation of queries from the grammar of the fragment
 
 pub fn gen_dop(rng: &mut Rng) -> Sx {
